@@ -343,11 +343,26 @@ def kind_term(e):
         return "KSnapWrite"
     if k == "snap-rename":
         return "KSnapRename"
+    if k in LINK_KINDS:
+        if k == "svc-drain":
+            return "KSvcDrain %d %s" % (idn(a[0]), "[" + ";".join("%d" % idn(x) for x in a[1:3] if x != "nil") + "]")
+        if k == "svc-drain-done":
+            return "KSvcDrainDone %d" % idn(a[0])
+        if k == "drainall":
+            return "KDrainAll %d %d" % (idn(a[0]), idn(a[1]))
+        if k == "drain-child":
+            return "KDrainChild %d %d" % (idn(a[0]), idn(a[1]))
+        return "KDrainAllDone %d %d" % (idn(a[0]), idn(a[1]))
     if k == "parked":
         return "KParked"
     if k == "released":
         return "KReleased"
     return "KOther"
+
+
+LINK_KINDS = {"svc-drain", "svc-drain-done", "drainall", "drain-child", "drainall-done"}
+LINK_EVENTS = False     # True: the harness records the command <-> drain linkage events (VERIF_LINK=1); the views that predate
+                        # them are offered the trace without them (Trace.unlinked)
 
 
 def trace_term(events):
@@ -360,7 +375,10 @@ def trace_term(events):
                     seen.add(x)
                     items.append("mkEv %d AEnv (%s %d %s)" % (e["t"], "KSvcName" if x[0] == "S" else "KTargetName", idn(x),
                                                               str_lit(x.split(":", 1)[1].encode("utf-8", "surrogateescape"))))
-        items.append("mkEv %d %s (%s)" % (e["t"], actor_term(e["g"]), kind_term(e)))
+        kt = kind_term(e)
+        if kt is None:
+            continue
+        items.append("mkEv %d %s (%s)" % (e["t"], actor_term(e["g"]), kt))
         if e["kind"] == "issue" and len(e["args"]) >= 6:
             a = e["args"]
             items.append("mkEv %d %s (KParams %d %d %d %d)" % (e["t"], actor_term(e["g"]), rid(a[0]), a[3], a[4], a[5]))
@@ -386,7 +404,8 @@ def read_hang(work, scenarios):
 def run_scenarios(work, scenarios, files=None):
     write_jsonl(work.path("m5scen.jsonl"), scenarios)
     rc, gout = go_test(work, files or ["common_test.go", "sim_test.go", "simrun_test.go", "assets_test.go"], "^TestVerifSim$",
-                       {"VERIF_IN": work.path("m5scen.jsonl"), "VERIF_OUT": work.path("m5out.jsonl")}, synctest=True)
+                       dict({"VERIF_IN": work.path("m5scen.jsonl"), "VERIF_OUT": work.path("m5out.jsonl")},
+                            **({"VERIF_LINK": "1"} if LINK_EVENTS else {})), synctest=True)
     if read_hang(work, scenarios):
         return False, gout, []
     if rc != 0 or not os.path.exists(work.path("m5out.jsonl")):
